@@ -13,6 +13,9 @@ package html
 // lowerEdit: the only change to the input buffer is ASCII upper case -> lower case.
 //@ pred lowerEdit(l) := forall(k, 0, len(l.r.buf), l.r.buf[k] == old(l.r.buf[k]) || ('A' <= old(l.r.buf[k]) && old(l.r.buf[k]) <= 'Z' && l.r.buf[k] == old(l.r.buf[k]) + 32))
 
+// lowerEditIn: bytes change only inside buf[lo:hi], and only from upper to lower case.
+//@ pred lowerEditIn(l, lo, hi) := lowerEdit(l) && forall(k, 0, lo, l.r.buf[k] == old(l.r.buf[k])) && forall(k, hi, len(l.r.buf), l.r.buf[k] == old(l.r.buf[k]))
+
 //@ func Lexer.at
 //@   requires[S] l != nil && l.r != nil && bufInv(l.r) && forall(k, 0, len(b), b[k] != 0)
 //@   ensures[S]  result ==> l.r.pos + len(b) <= len(l.r.buf)-1
@@ -29,7 +32,7 @@ package html
 
 //@ func Lexer.moveTemplate
 //@   preserves[S] hScan(l)
-//@   ensures[T] sameBytes()
+//@   ensures[T] sameBytesExcept(0, 0)
 //@   loop * candidate l.r.start == old(l.r.start)
 //@   loop * decreases len(l.r.buf) - l.r.pos
 
@@ -37,8 +40,8 @@ package html
 //@   preserves[S] hScan(l)
 //@   ensures[T]  sameMem(result, l.r.buf[old(l.r.start):l.r.pos]) && cap(result) == len(result)
 //@   ensures[T]  l.text == old(l.text) || within(l.text, result)
-//@   ensures[T,C02] lowerEdit(l)
-//@   loop * candidate[T] lowerEdit(l)
+//@   ensures[T,C02] @frame: sameBytesExcept(0, 0)
+//@   loop * candidate[T] sameBytesExcept(0, 0)
 //@   requires[S] l.r.pos - l.r.start >= 2 || (l.r.pos - l.r.start == 1 && l.r.buf[l.r.pos] == '?')
 //@   ensures[S]  l.r.start == l.r.pos
 //@   loop * candidate l.r.start == old(l.r.start)
@@ -49,7 +52,7 @@ package html
 //@   preserves[S] hScan(l)
 //@   ensures[T]  sameMem(result, l.r.buf[old(l.r.start):l.r.pos]) && cap(result) == len(result)
 //@   ensures[T]  l.text == old(l.text) || within(l.text, result)
-//@   ensures[T,C02] lowerEdit(l)
+//@   ensures[T,C02] @frame: lowerEditIn(l, old(l.r.start), l.r.pos)
 //@   loop * candidate[T] lowerEdit(l)
 //@   requires[S] l.r.pos - l.r.start >= 2
 //@   ensures[S]  l.r.start == l.r.pos
@@ -62,7 +65,8 @@ package html
 //@   preserves[S] hScan(l)
 //@   ensures[T]  sameMem(result, l.r.buf[old(l.r.start):l.r.pos]) && cap(result) == len(result)
 //@   ensures[T]  l.text == old(l.text) || within(l.text, result)
-//@   ensures[T,C02] lowerEdit(l)
+//@   ensures[T,C02] @frame: lowerEditIn(l, hOff(l, l.text), hOff(l, l.text) + len(l.text))
+//@   loop * candidate[T] sameBytesExcept(0, 0)
 //@   loop * candidate[T] lowerEdit(l)
 //@   requires[S] !isHTMLWS(l.r.buf[l.r.pos]) && l.r.buf[l.r.pos] != '>' && l.r.pos < len(l.r.buf)-1
 //@   requires[S] l.r.buf[l.r.pos] == '/' ==> l.r.buf[l.r.pos+1] != '>'
@@ -83,8 +87,8 @@ package html
 //@   preserves[S] hScan(l)
 //@   ensures[T]  sameMem(result, l.r.buf[old(l.r.start):l.r.pos]) && cap(result) == len(result)
 //@   ensures[T]  l.text == old(l.text) || within(l.text, result)
-//@   ensures[T,C02] lowerEdit(l)
-//@   loop * candidate[T] lowerEdit(l)
+//@   ensures[T,C02] @frame: sameBytesExcept(0, 0)
+//@   loop * candidate[T] sameBytesExcept(0, 0)
 //@   ensures[S]  l.r.start == l.r.pos
 //@   loop * candidate l.r.start == old(l.r.start)
 //@   loop * candidate mark <= l.r.pos - l.r.start - 2
@@ -95,7 +99,8 @@ package html
 //@   preserves[S] hScan(l)
 //@   ensures[T]  result0 != ErrorToken ==> sameMem(result1, l.r.buf[old(l.r.start):l.r.pos]) && cap(result1) == len(result1)
 //@   ensures[T]  l.text == old(l.text) || result0 == ErrorToken || within(l.text, result1)
-//@   ensures[T,C02] lowerEdit(l)
+//@   ensures[T,C02] @frame: lowerEditIn(l, old(l.r.start)+1, l.r.pos)
+//@   loop * candidate[T] sameBytesExcept(0, 0)
 //@   loop * candidate[T] lowerEdit(l)
 //@   requires[S] l.r.pos - l.r.start >= 1
 //@   ensures[S]  l.r.start == l.r.pos
@@ -108,8 +113,8 @@ package html
 //@   preserves[S] hScan(l)
 //@   ensures[T]  result0 != ErrorToken ==> sameMem(result1, l.r.buf[old(l.r.start):l.r.pos]) && cap(result1) == len(result1)
 //@   ensures[T]  l.text == old(l.text) || result0 == ErrorToken || within(l.text, result1)
-//@   ensures[T,C02] lowerEdit(l)
-//@   loop * candidate[T] lowerEdit(l)
+//@   ensures[T,C02] @frame: sameBytesExcept(0, 0)
+//@   loop * candidate[T] sameBytesExcept(0, 0)
 //@   requires[S] l.r.pos - l.r.start == 2
 //@   ensures[S]  l.r.start == l.r.pos && (result0 == CommentToken || result0 == TextToken || result0 == DoctypeToken)
 //@   loop * candidate l.r.start == old(l.r.start)
@@ -121,8 +126,8 @@ package html
 //@   preserves[S] hScan(l)
 //@   ensures[T]  sameMem(result, l.r.buf[old(l.r.start):l.r.pos]) && cap(result) == len(result)
 //@   ensures[T]  l.text == old(l.text) || within(l.text, result)
-//@   ensures[T,C02] lowerEdit(l)
-//@   loop * candidate[T] lowerEdit(l)
+//@   ensures[T,C02] @frame: sameBytesExcept(0, 0)
+//@   loop * candidate[T] sameBytesExcept(0, 0)
 //@   ensures[S]  l.r.start == l.r.pos && len(result) == l.r.pos - old(l.r.start)
 //@   loop * candidate l.r.start == old(l.r.start)
 //@   loop * candidate 0 <= mark
@@ -148,6 +153,9 @@ package html
 //@   ensures[T,C02] @skipped: result0 != ErrorToken ==> forall(k, old(l.r.pos), hOff(l, result1), isHTMLWS(l.r.buf[k]))
 //@   ensures[T,C02] @parts: (l.text == nil || result0 == ErrorToken || within(l.text, result1)) && (result0 == AttributeToken ==> l.attrVal == nil || within(l.attrVal, result1))
 //@   ensures[T,C02] @frame: lowerEdit(l)
+//@   ensures[T,C02] @frame-names: result0 != StartTagToken && result0 != EndTagToken && result0 != AttributeToken && result0 != SVGToken && result0 != MathToken && result0 != XMLToken && result0 != ErrorToken ==> sameBytesExcept(0, 0)
+//@   ensures[T,C02] @frame-attr: result0 == AttributeToken ==> lowerEditIn(l, hOff(l, l.text), hOff(l, l.text) + len(l.text))
+//@   ensures[T,C02] @frame-tag: result0 == StartTagToken || result0 == EndTagToken || result0 == SVGToken || result0 == MathToken || result0 == XMLToken ==> lowerEditIn(l, old(l.r.pos), l.r.pos)
 //@   ensures[T,C02] @shifted: result0 != ErrorToken ==> l.r.start == l.r.pos
 //@   loop * candidate[T] forall(k, old(l.r.pos), l.r.pos, isHTMLWS(l.r.buf[k]))
 //@   loop * candidate[T] lowerEdit(l)
